@@ -223,15 +223,18 @@ class Check:
                 {"key": k, "count": self.viol_count[k], "detail": v} for k, v in list(self.violations.items())[:50]]
         if not ev["coverage"]["samples"]:
             ev["coverage"]["samples"] = ["(none)"]
-        os.makedirs(os.path.join(VERIF, "evidence"), exist_ok=True)
-        evpath = os.path.join(VERIF, "evidence", f"{self.pid}.json")
+        # VF_OUT redirects evidence/replays (used when the checks are pointed at a scratch copy via VF_REPO,
+        # so that the committed evidence always comes from a run against /repo itself)
+        outroot = os.environ.get("VF_OUT", VERIF)
+        os.makedirs(os.path.join(outroot, "evidence"), exist_ok=True)
+        evpath = os.path.join(outroot, "evidence", f"{self.pid}.json")
         with open(evpath, "w") as f:
             json.dump(ev, f, indent=1, default=str)
             f.write("\n")
         for k, what in sorted(self.known_hits.items()):
             print(f"KNOWN-FINDING: property={self.pid} {what} [{k}]")
         if self.violations:
-            rdir = os.path.join(VERIF, "replays", self.pid)
+            rdir = os.path.join(outroot, "replays", self.pid)
             os.makedirs(rdir, exist_ok=True)
             first = None
             for k, d in list(self.violations.items())[:20]:
